@@ -465,7 +465,7 @@ def _config_body(env, case, res, exp, text, via, casedir, family, fake_out,
         inits = mon.serials("init")
         seen = []
         for spec, e in zip(case["loggers"], exp["loggers"]):
-            lg = logging.getLogger(spec["name"])
+            lg = logging.getLogger(spec.get("name"))
             seen += check_logger(env, case, res, spec, e, lg, [],
                                  mon.added(lg), casedir, fake_out, fake_err)
         check_init_hook(res, case, seen, inits)
@@ -670,6 +670,9 @@ def check_logger(env, case, res, spec, e, lg, before, hook_added, casedir,
     """-> serial numbers of the component file handlers found attached."""
     bad = {}
     if spec["type"] == "eventlog":
+        want = logging.getLogger()
+        want_name = "root"
+    elif spec.get("name") is None:
         want = logging.getLogger()
         want_name = "root"
     else:
@@ -1955,6 +1958,9 @@ def random_config(rng, i):
         if rng.random() < 0.3:
             name += ".sub" + rng.choice(["", ".leaf"])
         lg = {"type": "logger", "name": name, "handlers": hs}
+        if j == 0 and rng.random() < 0.12:
+            # a <logger> section without a name configures the root logger
+            del lg["name"]
         if rng.random() < 0.7:
             lg["level"] = random_level(rng)
         if rng.random() < 0.5:
